@@ -276,7 +276,7 @@ func (g *Gen) VerifyFunction(ct *Contract) *FuncResult {
 		ev := fe.newEval(fe.mem, fe.entryMem, fe.paramVals)
 		var reqs []string
 		for _, r := range ct.Requires {
-			t := ev.evalBool(r.E)
+			t := ev.evalAssume(r.E)
 			reqs = append(reqs, t)
 			s.assert(t)
 		}
@@ -312,6 +312,14 @@ func (g *Gen) VerifyFunction(ct *Contract) *FuncResult {
 		fe.obls = append(fe.obls, &Obligation{Name: fe.fnName() + "#bind", Func: fe.fnName(), Kind: "bind", Goal: "true", Sess: fe.s, Src: "contract binds to the function (parameters, results, loops, names)", Props: ct.Props})
 	}
 	fe.s.finalize()
+	if len(fe.s.axiomErrs) > 0 {
+		for _, o := range fe.obls {
+			if o.Kind == "bind" {
+				o.Goal = "false"
+				o.Src += "; axiom errors: " + strings.Join(fe.s.axiomErrs, "; ")
+			}
+		}
+	}
 	res.Obls = fe.obls
 	res.Inlined = sortedKeys(fe.inlined)
 	res.Havocked = sortedKeys(fe.havocked)
@@ -584,7 +592,13 @@ func (s *Sess) finalize() {
 			changed = true
 			ev.calleePkg = ax.PkgPath
 			nl := len(s.lines)
+			nerr := len(ev.fe.bindErrs)
 			t := ev.evalBool(ax.E)
+			if len(ev.fe.bindErrs) > nerr {
+				s.axiomErrs = append(s.axiomErrs, ax.Name+": "+ev.fe.bindErrs[len(ev.fe.bindErrs)-1])
+				s.lines = s.lines[:nl]
+				continue
+			}
 			// axioms must not emit script lines; move any to the axiom block
 			if len(s.lines) > nl {
 				s.axioms = append(s.axioms, s.lines[nl:]...)
@@ -676,5 +690,9 @@ func (g *Gen) VerifyLemma(ax *Axiom) *Obligation {
 		o.Src = strings.Join(fe.bindErrs, "; ")
 	}
 	s.finalize()
+	if len(s.axiomErrs) > 0 {
+		o.Goal = "false"
+		o.Src += "; axiom errors: " + strings.Join(s.axiomErrs, "; ")
+	}
 	return o
 }
